@@ -13,7 +13,18 @@ use crate::oracle::groups;
 #[derive(Clone, Debug, Serialize, Deserialize)]
 pub enum Case {
     Scripted(ScriptedCase),
-    Real { group: String, shape: ShapeSpec, lj: bool, cfg: OptCfg, via_api: bool },
+    Real {
+        group: String,
+        shape: ShapeSpec,
+        lj: bool,
+        cfg: OptCfg,
+        via_api: bool,
+        /// start from these parameters instead of the group's initial state (a later stage of a
+        /// pipeline: parameters anywhere in their ranges, also exactly on a bound - where the
+        /// range handed to the next stage is empty)
+        #[serde(default)]
+        start: Option<libx::Params>,
+    },
 }
 
 pub fn judge(c: &Case, r: &RunReport, st: &mut Stats) {
@@ -65,7 +76,7 @@ pub fn check(c: &Case, st: &mut Stats) {
             let r = mc::run_scripted(sc, false);
             judge(c, &r, st);
         }
-        Case::Real { group, shape, lj, cfg, via_api } => {
+        Case::Real { group, shape, lj, cfg, via_api, start } => {
             let wg = match lib_group(group) {
                 Ok(g) => g,
                 Err(e) => {
@@ -87,6 +98,19 @@ pub fn check(c: &Case, st: &mut Stats) {
                         Err(e) => st.inconclusive.push(e.to_string()),
                     }
                 }};
+            }
+            if let Some(p) = start {
+                st.count("real_runs_started_from_given_parameters");
+                if *lj {
+                    if let Some(s) = shape.lj() {
+                        go!(libx::build_potential(s, group, p))
+                    }
+                } else if let Some(s) = shape.line() {
+                    go!(libx::build_packed(s, group, p))
+                } else if let Some(s) = shape.mol() {
+                    go!(libx::build_packed(s, group, p))
+                }
+                return;
             }
             if *lj {
                 if let Some(s) = shape.lj() {
@@ -115,11 +139,32 @@ pub fn gen_real<R: Rng>(rng: &mut R) -> Case {
     } else {
         libx::gen::hard_shape(rng)
     };
-    Case::Real { group: groups::NAMES[rng.gen_range(0, 7)].to_string(), shape, lj, cfg, via_api: rng.gen_bool(0.3) }
+    let group = groups::NAMES[rng.gen_range(0, 7)].to_string();
+    let start = if rng.gen_bool(0.5) {
+        use std::f64::consts::PI;
+        let copies = groups::group(&group).unwrap().ops.len() as f64;
+        let on = |rng: &mut R, lo: f64, hi: f64| match rng.gen_range(0, 4) {
+            0 => lo,
+            1 => hi,
+            _ => rng.gen_range(lo, hi),
+        };
+        Some(libx::Params {
+            // dilute enough for any ratio
+            len: if lj { rng.gen_range(3., 8.) * copies.sqrt() } else { rng.gen_range(25., 60.) * copies },
+            ratio: on(rng, 0.1, 1.),
+            angle: on(rng, PI / 6., PI / 2.),
+            x: on(rng, -0.5, 0.5),
+            y: on(rng, -0.5, 0.5),
+            phi: on(rng, 0., 2. * PI),
+        })
+    } else {
+        None
+    };
+    Case::Real { group, shape, lj, cfg, via_api: rng.gen_bool(0.3), start }
 }
 
 pub fn run(ctx: &Ctx) {
-    ctx.set_rule("optimise_state observed call by call: scripted states with k = 1..24 bounded parameters whose scores follow adversarial scripts (all-reject, all-accept, alternating, reject runs of 2..200 then accept, undefined scores, random mixtures at 0/50/75/99/100% rejection), bounds hit on every move (step 1) or never, all temperatures, steps 1..20000 with one or many inner loops, convergence on/off; and real hard/LJ states of all groups wrapped in a Spy. The trace monitor compares parameter vectors bit for bit: every evaluated vector must differ from some possible current state in at most one parameter, and the returned state must be a possible current state. Non-trivial = runs in which both accepts and rejects were resolved; distinct by case");
+    ctx.set_rule("optimise_state observed call by call: scripted states with k = 1..24 bounded parameters whose scores follow adversarial scripts (all-reject, all-accept, alternating, reject runs of 2..200 then accept, undefined scores, random mixtures at 0/50/75/99/100% rejection), bounds hit on every move (step 1) or never, all temperatures, steps 1..20000 with one or many inner loops, convergence on/off; and real hard/LJ states of all groups wrapped in a Spy, from the group's initial state and from given parameters anywhere in their ranges or exactly on a bound (where the range of the next stage is empty; scripted states likewise have one empty range in twelve). The trace monitor compares parameter vectors bit for bit: every evaluated vector must differ from some possible current state in at most one parameter, and the returned state must be a possible current state. Non-trivial = runs in which both accepts and rejects were resolved; distinct by case");
     let n_s = ctx.tier.pick(70u64, 3_500u64);
     let n_r = ctx.tier.pick(6u64, 250u64);
     let prev = std::panic::take_hook();
